@@ -1,9 +1,9 @@
 """C06, C08, C14: Dag.tla <-> network/dag (real State over real bbolt behind the gated KV store)."""
-import json, random, time
+import copy, json, os, random, re, time
 from .. import vlib
+from ..vlib import Report, Inconclusive
 
 PROPS = ["C06", "C08", "C14"]
-from ..vlib import Report, Inconclusive
 
 UNIVERSE = {  # must mirror Attr in MCDag.tla (the driver builds real bytes from these attributes)
     "r": dict(prevs=[], lc=0, sig=True, wf=True),
@@ -21,18 +21,21 @@ UNIVERSE = {  # must mirror Attr in MCDag.tla (the driver builds real bytes from
 SUBS = {"s1": dict(name="s1", type="transaction"), "s2": dict(name="s2", type="payload"),
         "s3": dict(name="s3", type="transaction", select=["a", "c"])}
 
+# concrete defect classes realising the abstract classes of the model (driver: world.build)
+MALFORMED = ["alg-none", "alg-hs256", "alg-rs256", "alg-es256k", "alg-eddsa", "no-crit", "crit-without-lc", "missing-sigt",
+             "missing-ver", "ver-fraction", "missing-prevs", "missing-lc", "missing-cty", "sigt-string", "ver-string", "ver-3",
+             "prevs-string", "prevs-nonhex", "prevs-short", "prevs-number", "lc-string", "lc-fraction", "lc-plus-2-32",
+             "lc-minus-2-32", "lc-negative", "kid-and-jwk", "no-kid-no-jwk", "cty-no-slash", "payload-nonhex",
+             "two-signatures", "zero-signatures", "truncated", "empty"]
+BADSIG = ["sig-flipped", "sig-other-key", "sig-header-altered", "sig-payload-altered", "kid-unknown", "kid-wrong-key"]
+VALID_VARIANTS = ["", "kid-ok"]
+
 
 def cfg_constants(cfg):
-    import os, re
     txt = open(os.path.join(vlib.SPEC, "cfg", cfg)).read()
     tx = re.findall(r'"(\w+)"', re.search(r"Tx = \{(.*?)\}", txt).group(1))
     subs = re.findall(r'"(\w+)"', re.search(r"Subs = \{(.*?)\}", txt).group(1))
     return tx, subs
-
-
-def is_bad_witness(b):
-    """complete behaviours end with every goroutine idle; witnesses of bad states are prefixes"""
-    return True
 
 
 def generate(cfg, seed, n_exh, n_sim, sim_depth=70, timeout=900):
@@ -42,14 +45,15 @@ def generate(cfg, seed, n_exh, n_sim, sim_depth=70, timeout=900):
     if not g.ok:
         raise Inconclusive("generation run failed: %s %s" % (g.violation, g.error))
     wit = g.printed
+    wit.sort(key=lambda b: json.dumps(b, sort_keys=True))
     rnd.shuffle(wit)
-    # prefer diversity: bucket by (multiset of actions) signature
+    # prefer diversity: bucket by the set of (action, outcome) pairs that occur
     buckets = {}
     for b in wit:
         sig = tuple(sorted(set((s["a"], s.get("res", "")) for s in b)))
         buckets.setdefault(sig, []).append(b)
     chosen = []
-    keys = list(buckets)
+    keys = sorted(buckets)
     rnd.shuffle(keys)
     while len(chosen) < n_exh and keys:
         for k in list(keys):
@@ -72,10 +76,51 @@ def to_scripts(behaviours, prefix):
     return [dict(id="%s%05d" % (prefix, i), steps=b) for i, b in enumerate(behaviours)]
 
 
+def concretise(scripts, uni, rnd):
+    """C06: every script gets a random concrete defect (or valid variant) for each abstract class; the driver
+    rebuilds the universe per script with these."""
+    out = []
+    for sc in scripts:
+        d = {}
+        for cls, variants in (("w", MALFORMED), ("u", BADSIG), ("a", VALID_VARIANTS)):
+            if cls in uni:
+                v = rnd.choice(variants)
+                if v:
+                    d[cls] = v
+        out.append(dict(sc, defects=d))
+    return uni, out
+
+
+def abstract_trace(trace):
+    out = []
+    for e in trace:
+        e = dict(e)
+        for k in ("t", "g"):
+            if isinstance(e.get(k), str) and "~" in e[k]:
+                e[k] = e[k].split("~")[0]
+        if "stored" in e:
+            e["stored"] = sorted(set(x.split("~")[0] for x in e["stored"]))
+        out.append(e)
+    return out
+
+
+def budget_scripts():
+    """C14: hand-written abstract scripts for the real retry budget (20) -- the model uses a small budget constant."""
+    add = lambda p, t, pl: [dict(a="Offer", p=p, t=t, pl=pl), dict(a="ReadVerify", p=p, t=t, res="verified"),
+                            dict(a="LockWrite", p=p, t=t, res="written"), dict(a="Commit", p=p, t=t), dict(a="AfterCommit", p=p, t=t)]
+    out = []
+    out.append(dict(id="budget-fail-forever", steps=add("p1", "r", "good"), default={"": "fail"}, restarts=2))
+    out.append(dict(id="budget-incomplete-forever", steps=add("p1", "r", "none") + add("p1", "a", "good"), default={"": "incomplete"}, restarts=1))
+    out.append(dict(id="budget-fatal", steps=add("p1", "r", "good"), default={"": "fatal"}, restarts=2))
+    return out
+
+
+FAMILY = {"C06": ["admit", "add"], "C08": ["add", "repair"], "C14": ["notify"]}
+
+
 def run(prop, tier, seed, replay=None):
     t0 = time.time()
     rep = Report(prop)
-    fam = {"C06": "add", "C08": "add", "C14": "notify"}[prop]
     if replay:
         obj = json.load(open(replay))
         binary = vlib.build_driver("dagdrv")
@@ -88,67 +133,115 @@ def run(prop, tier, seed, replay=None):
         return rep.finish()
 
     quick = tier == "quick"
-    check_cfg = "Dag.%s.%s.cfg" % (fam, "quick" if quick else "thorough")
-    gen_cfg = "Dag.%s.gen%s.cfg" % (fam, "" if quick else ".thorough")
-    # 1. the prescriptive design satisfies the properties (exhaustive, small constants)
-    m = vlib.tlc("MCDag", check_cfg, timeout=3000, coverage=not quick)
-    if m.error:
-        raise Inconclusive("TLC: " + m.error)
-    if m.violation:
-        # a spec-level violation is not a verdict about the code; it makes the run inconclusive
-        raise Inconclusive("prescriptive model violates %s:\n%s" % (m.violation, m.raw[-3000:]))
-    # 2. behaviours from the permissive model -> real code
-    n_exh, n_sim = (250, 150) if quick else (2500, 1500)
-    g, n_wit, chosen, sim = generate(gen_cfg, seed, n_exh, n_sim, timeout=3000)
-    tx, subs = cfg_constants(gen_cfg)
-    uni = {k: UNIVERSE[k] for k in tx}
+    rnd = random.Random(seed)
     binary = vlib.build_driver("dagdrv")
-    props = ["C06", "C08"] if fam == "add" else ["C14", "C06"]
-    scripts = to_scripts(chosen, "w") + to_scripts(sim, "s")
-    bases = [0, 510] if quick else [0, 510, 1022]
-    results = []
-    for bi, base in enumerate(bases):
-        part = scripts if (base == 0 or not quick) else scripts[::3]
-        inp = dict(universe=uni, base=base, subs=[SUBS[s] for s in subs], scripts=part, props=props)
-        rs = vlib.run_driver_parallel(binary, inp)
-        for r in rs:
-            r["base"] = base
-        results += rs
-    by_id = {s["id"]: s for s in scripts}
-    nviol = ninc = ndrift = ndef = nchecks = 0
+    states = transitions = 0
+    models, cover = [], {}
+    all_results, all_scripts = [], {}
+    n_wit_total = 0
+    live = None
+    for fam in FAMILY[prop]:
+        if fam == "repair":
+            check_cfg, gen_cfg = "Dag.repair.quick.cfg", "Dag.repair.gen.cfg"
+        else:
+            check_cfg = "Dag.%s.%s.cfg" % (fam, "quick" if quick else "thorough")
+            gen_cfg = "Dag.%s.gen%s.cfg" % (fam, "" if quick else ".thorough")
+        # 1. the design the code implements satisfies the properties (exhaustive, small constants)
+        m = vlib.tlc("MCDag", check_cfg, timeout=3000, coverage=not quick)
+        if m.error:
+            raise Inconclusive("TLC %s: %s" % (check_cfg, m.error))
+        if m.violation:
+            raise Inconclusive("model %s violates %s:\n%s" % (check_cfg, m.violation, m.raw[-3000:]))
+        states += m.distinct
+        transitions += m.generated
+        models.append(dict(cfg=check_cfg, states=m.distinct, transitions=m.generated, depth=m.depth, wall_s=round(m.wall, 1)))
+        cover.update(m.coverage)
+        # 2. behaviours from the permissive model -> real code
+        n_exh, n_sim = (200, 120) if quick else (2000, 1200)
+        if len(FAMILY[prop]) > 1 and fam != FAMILY[prop][0]:
+            n_exh, n_sim = n_exh // 2, n_sim // 2
+        g, n_wit, chosen, sim = generate(gen_cfg, seed, n_exh, n_sim, timeout=3000)
+        n_wit_total += n_wit
+        tx, subs = cfg_constants(gen_cfg)
+        uni = {k: UNIVERSE[k] for k in tx}
+        scripts = to_scripts(chosen, fam + "-w") + to_scripts(sim, fam + "-s")
+        props = {"add": ["C06", "C08"], "admit": ["C06", "C08"], "repair": ["C08"], "notify": ["C14", "C06", "C08"]}[fam]
+        if fam == "notify":
+            scripts += budget_scripts()
+            uni = {k: UNIVERSE[k] for k in set(tx) | {"r", "a"}}
+        if prop == "C06":
+            uni, scripts = concretise(scripts, uni, rnd)
+        bases = [0, 510] if quick else [0, 510, 1022]
+        if fam in ("admit", "notify"):
+            bases = [0] if quick else [0, 510]
+        for base in bases:
+            part = scripts if (base == 0 or not quick) else scripts[::3]
+            inp = dict(universe=uni, base=base, subs=[SUBS[s] for s in subs], scripts=part, props=props)
+            rs = vlib.run_driver_parallel(binary, inp)
+            for r in rs:
+                r["base"] = base
+                r["input"] = dict(universe=uni, base=base, subs=[SUBS[s] for s in subs], props=props)
+            all_results += rs
+        for s in scripts:
+            all_scripts[s["id"]] = s
+    if prop == "C14":
+        live = vlib.tlc("MCDag", "Dag.notify.live.cfg", timeout=1500)
+        if live.error:
+            raise Inconclusive("TLC liveness: " + str(live.error))
+        if live.violation:
+            raise Inconclusive("liveness model violates %s" % live.violation)
+        states += live.distinct
+        transitions += live.generated
+        models.append(dict(cfg="Dag.notify.live.cfg", states=live.distinct, transitions=live.generated, property="EventuallySettled under FairSpec"))
+
+    # 3. verdicts from the real observables
+    ninc = ndrift = ndef = nchecks = 0
     samples = []
-    for r in results:
+    for r in all_results:
         nchecks += r.get("checks", 0)
         ndef += r.get("deferred", 0)
         ndrift += len(r.get("drift") or [])
+        sc = all_scripts[r["id"]]
         if r.get("error"):
             ninc += 1
             rep.inconclusive.append("script %s: %s" % (r["id"], r["error"]))
         for v in r["violations"]:
             if v["prop"] != prop:
                 continue
-            nviol += 1
-            replay_obj = dict(property=prop, violation=v,
-                              input=dict(universe=uni, base=r["base"], subs=[SUBS[s] for s in subs], scripts=[by_id[r["id"]]], props=props))
-            rep.violation(dict(kind=v["kind"]), replay_obj)
-        if len(samples) < 3 and r.get("trace"):
-            samples.append(dict(script=by_id[r["id"]]["steps"], real_trace=r["trace"][:40]))
-    if ninc > max(2, len(results) // 50):
-        pass  # reported through rep.inconclusive
-    else:
+            inp = dict(r["input"], scripts=[sc])
+            rep.violation(dict(kind=v["kind"]), dict(property=prop, violation=v, input=inp))
+        if len(samples) < 2 and r.get("trace") and len(sc["steps"]) > 8:
+            samples.append(dict(script=sc["steps"], real_trace=r["trace"][:30]))
+    if ninc <= max(2, len(all_results) // 50):
         rep.inconclusive = []
-    cov = dict(states=m.distinct, transitions=m.generated, depth=m.depth,
-               traces_validated_against_impl=len(results),
-               samples=samples or [by_id[next(iter(by_id))]["steps"]],
-               model_cfg=check_cfg, generation_cfg=gen_cfg, generation_states=g.distinct,
-               witness_behaviours_available=n_wit, witness_behaviours_replayed=len(chosen), simulated_behaviours_replayed=len(sim),
-               base_chain_lengths=bases, oracle_evaluations=nchecks, steps_deferred_because_code_blocked=ndef,
-               drift=ndrift, inconclusive_scripts=ninc, action_coverage=m.coverage,
-               exhaustive=False,
-               rule="TLC exhausts the prescriptive Dag model (invariants of %s); behaviours (one witness per distinct terminal state and per distinct state "
-                    "violating DerivedOK in the permissive model, plus -simulate runs) are replayed step by step on the real dag.State over bbolt; "
-                    "the property is evaluated on the real observables at every quiescent point" % prop)
+
+    # 4. recorded traces of the real code are validated by TLC against the specification
+    traces = [abstract_trace(r["trace"]) for r in all_results if r.get("trace") and not r.get("error")]
+    acc, rej = vlib.validate_traces("TraceDag", "Dag.trace.cfg", traces, timeout=1200)
+    inv_rej = [x for x in rej if x["kind"].startswith("invariant:")]
+    for x in rej[:5]:
+        rep.notes.append("DRIFT: trace %d rejected at event %s (%s)" % (x["index"], json.dumps(x["event"]), x["kind"]))
+    for x in inv_rej:
+        # a property invariant failed on the state reconstructed from a REAL execution
+        rep.violation(dict(kind="trace-" + x["kind"]), dict(property=prop, trace=traces[x["index"]], rejected=x))
+    if len(rej) > max(3, len(traces) // 10) and not rep.violations:
+        rep.inconclusive.append("%d of %d recorded traces are not behaviours of the specification (spec/code drift)" % (len(rej), len(traces)))
+
+    cov = dict(states=states, transitions=transitions,
+               traces_validated_against_impl=acc + len(rej),
+               traces_accepted=acc, traces_rejected=len(rej),
+               samples=samples or [next(iter(all_scripts.values()))["steps"]],
+               models=models, behaviours_replayed_on_real_code=len(all_results),
+               witness_behaviours_available=n_wit_total, oracle_evaluations=nchecks,
+               steps_deferred_because_code_blocked=ndef, drift_notes=ndrift, inconclusive_scripts=ninc,
+               action_coverage=cover, exhaustive=False,
+               concrete_defect_classes=(len(MALFORMED) + len(BADSIG) + len(VALID_VARIANTS)) if prop == "C06" else 0,
+               rule="TLC exhausts the Dag model configs listed under 'models' (invariants/action properties of %s); behaviours of the PERMISSIVE "
+                    "model (one witness per distinct terminal state and per distinct state violating DerivedOK without the tree mutex, plus "
+                    "-simulate runs) are replayed gate by gate on the real dag.State over bbolt; the property is evaluated on the real "
+                    "observables at every quiescent point; every recorded real trace is validated by TLC against TraceDag.tla" % prop)
     vlib.write_evidence(prop, tier, seed, "model_checking", cov, time.time() - t0, len(rep.violations),
                         ["SHA-256 collision freedom", "bbolt commits atomically", "jwx verifies ES256 correctly",
-                         "small-scope: 2 goroutines, <=6 transactions, <=2 injected failures"])
+                         "small scope: <=2 goroutines, <=10 transaction classes, <=2 injected failures / crashes",
+                         "crash = the incarnation's store refuses every further operation and the same file is reopened"])
     return rep.finish()
